@@ -569,7 +569,7 @@ def gen_sibling_wrappers(rng: random.Random) -> dict:
 
 def gen_api(rng: random.Random) -> dict:
     """Which spelling of the public API builds the program (all are equivalent by documentation)."""
-    return {"decorators": rng.random() < 0.3, "explicit_edges": rng.choice([True, "split"]) if rng.random() < 0.25 else False, "wrap_async": rng.random() < 0.2, "siblings": rng.random() < 0.3, "rename_emit": rng.random() < 0.3, "wrap_gen": rng.random() < 0.4}
+    return {"decorators": rng.random() < 0.3, "explicit_edges": rng.choice([True, "split"]) if rng.random() < 0.25 else False, "wrap_async": rng.random() < 0.2, "siblings": rng.random() < 0.3, "rename_emit": rng.random() < 0.3, "wrap_gen": rng.random() < 0.4, "rename_after_use": rng.random() < 0.4}
 
 
 def with_api(g: dict, api: dict | None) -> dict:
@@ -597,6 +597,8 @@ def with_api(g: dict, api: dict | None) -> dict:
                 nd["emit_via_rename"] = True
             if nd["kind"] == "fn" and nd.get("gen") and api.get("wrap_gen"):
                 nd["gen_wrapped"] = True
+            if nd["kind"] == "fn" and nd.get("rename_inputs") and api.get("rename_after_use"):
+                nd["rename_after_use"] = True
 
     walk(g2)
     return g2
